@@ -1,3 +1,4 @@
+import SamlModel.Lib.Time
 import SamlModel.Props.SsoLemmas
 import SamlModel.Props.FnLemmas
 set_option linter.unusedSimpArgs false
@@ -84,6 +85,63 @@ theorem C06_outside_window_rejected (o : Ora) (i : In) (req : samlp_AuthnRequest
   rcases hbad with ⟨hn, hp, hlt⟩ | ⟨hn, hp, hle⟩
   · obtain ⟨t', htp, hle⟩ := t1 hn; rw [hp] at htp; cases htp; omega
   · obtain ⟨t', htp, hlt⟩ := t2 hn; rw [hp] at htp; cases htp; omega
+
+/-! ## The default layout, concretely
+
+  `time.Parse` is an oracle of the generated `checkIfRequestTimeIsStillValid`.  For the library's `DefaultTimeFormat`
+  it is also modelled (`Lib.Time.parseDefault`, compared with `time.Parse` on a boundary corpus and some 10^4-10^5
+  mutated strings on every run).  Under the hypothesis that the oracle is that function, "unparseable" and "the
+  instant" become concrete. -/
+
+/-- the `time.Parse` oracle answers as Go's parser does for the default layout (instants in nanoseconds) -/
+def ParsesAsGo (o : Ora) : Prop :=
+  ∀ s, o.timeParse defaultTimeFormat s = (Lib.Time.parseDefault s.toList).map Lib.Time.Instant.nanos
+
+/-- an accepted request's Conditions carry timestamps of the supported lexical form whose instants bracket `now` -/
+theorem C06_window_concrete (o : Ora) (i : In) (req : samlp_AuthnRequestType) (c : saml_ConditionsType) (hgo : ParsesAsGo o)
+    (h : accepted o i) (hd : i.decoded = some req) (hc : req.Conditions = some c) :
+    (c.NotBefore ≠ "" → ∃ t, Lib.Time.parseDefault c.NotBefore.toList = some t ∧ t.nanos ≤ o.now) ∧
+    (c.NotOnOrAfter ≠ "" → ∃ t, Lib.Time.parseDefault c.NotOnOrAfter.toList = some t ∧ o.now < t.nanos) := by
+  obtain ⟨_, r, _, _, _, _, hd', _, _, _, _, _, ht⟩ := C06_accept_implies_valid o i h
+  rw [hd] at hd'; cases hd'
+  obtain ⟨t1, t2⟩ := ht c hc
+  constructor
+  · intro hn
+    obtain ⟨t, htp, hle⟩ := t1 hn
+    rw [hgo] at htp
+    cases hp : Lib.Time.parseDefault c.NotBefore.toList with
+    | none => rw [hp] at htp; cases htp
+    | some u => rw [hp] at htp; simp at htp; exact ⟨u, rfl, by omega⟩
+  · intro hn
+    obtain ⟨t, htp, hlt⟩ := t2 hn
+    rw [hgo] at htp
+    cases hp : Lib.Time.parseDefault c.NotOnOrAfter.toList with
+    | none => rw [hp] at htp; cases htp
+    | some u => rw [hp] at htp; simp at htp; exact ⟨u, rfl, by omega⟩
+
+/-- `0001-01-01T00:00:00Z` is a timestamp like any other (Go's zero `time.Time`): a request that expired then is
+    rejected at any time after 1970 -/
+theorem C06_zero_time_is_expired (o : Ora) (i : In) (req : samlp_AuthnRequestType) (c : saml_ConditionsType) (hgo : ParsesAsGo o)
+    (hd : i.decoded = some req) (hc : req.Conditions = some c) (hz : c.NotOnOrAfter = "0001-01-01T00:00:00Z") (hnow : 0 ≤ o.now) :
+    ¬ accepted o i := by
+  intro h
+  obtain ⟨t, hp, hlt⟩ := (C06_window_concrete o i req c hgo h hd hc).2 (by rw [hz]; decide)
+  have : Lib.Time.parseDefault c.NotOnOrAfter.toList = some { sec := -62135596800, nsec := 0 } := by rw [hz]; decide
+  rw [this] at hp; cases hp
+  simp [Lib.Time.Instant.nanos] at hlt
+  omega
+
+/-- lexical forms outside the layout are errors; forms inside it that one might not expect are accepted (regression
+    table for the model; the same strings are in the corpus compared with `time.Parse`) -/
+example :
+    Lib.Time.parseDefault "2024-01-01T00:00:00+00:00".toList = none ∧ Lib.Time.parseDefault "2024-01-01T00:00:00".toList = none ∧
+    Lib.Time.parseDefault "2024-01-01 00:00:00Z".toList = none ∧ Lib.Time.parseDefault "2023-02-29T00:00:00Z".toList = none ∧
+    Lib.Time.parseDefault "2024-01-01T24:00:00Z".toList = none ∧ Lib.Time.parseDefault "2024-01-01T23:59:60Z".toList = none ∧
+    (Lib.Time.parseDefault "2024-02-29T5:04:05,1234567891Z".toList).isSome ∧ (Lib.Time.parseDefault "1970-01-01T00:00:00Z".toList) = some ⟨0, 0⟩ := by
+  decide
+
+/-- `Lib.Time.parseDefault` was written from the `time` package of this toolchain -/
+theorem C06_toolchain_current : FactsUtil.lookup Gen.Facts.deps "go" = "1.23.7" := by decide
 
 /-- tie obligations of this property -/
 theorem C06_source_current : Gen.Facts.ssoChain = Expected.ssoChain ∧ Consts.current = true :=
